@@ -15,3 +15,15 @@ mut("c02_shared_task_param_single_accumulate", "autojac/_transform/accumulate.py
     "                key.grad += gradients[key]",
     "                key.grad = key.grad + 0 * gradients[key] if getattr(key, '_seen', False) else key.grad + gradients[key]",
     ["C02"], expect=0)  # behaviour-preserving in effect (the flag is never set): must stay silent
+mut("c12_features_not_excluded", "autojac/mtl_backward.py",
+    "tasks_params = [_get_leaf_tensors(tensors=[loss], excluded=features) for loss in losses]",
+    "tasks_params = [_get_leaf_tensors(tensors=[loss], excluded=features[:1]) for loss in losses]",
+    ["C12"])
+mut("c12_roots_excluded_too_eagerly", "autojac/_utils.py",
+    "            if child is not None and child not in excluded_nodes:\n                nodes_to_traverse.append(child)  # Append to the right\n                excluded_nodes.add(child)",
+    "            if child is not None and child not in excluded_nodes:\n                nodes_to_traverse.append(child)  # Append to the right\n                excluded_nodes.add(child)\n                excluded_nodes.update(c for c, _ in child.next_functions if c is not None and c.__class__.__name__ != 'AccumulateGrad' and len(child.next_functions) > 2)",
+    ["C12"])
+mut("c05_mean_weights_wrong_for_single_row", "aggregation/mean.py",
+    "weights = torch.full(size=[m], fill_value=1 / m, device=device, dtype=dtype)",
+    "weights = torch.full(size=[m], fill_value=1 / max(m, 2), device=device, dtype=dtype)",
+    ["C05", "C01"])
